@@ -102,17 +102,17 @@ def centroid_unit(us):
 _MEMO = {}
 
 
-def proj(x, tol_rel=0.0):
+def proj(x, tol_rel=0.0, maxden=4096):
     """float -> [p, q, flags]; bit0: x == p/q exactly, bit1: |x - p/q| <= tol (1e-12 absolute, or relative tol_rel)."""
     x = float(x)
-    key = (x, tol_rel)
+    key = (x, tol_rel, maxden)
     r = _MEMO.get(key)
     if r is not None:
         return r
     if not math.isfinite(x) or abs(x) > 1e6:
         r = [0, 0, 0]
     else:
-        fr = Fraction(x).limit_denominator(4096)
+        fr = Fraction(x).limit_denominator(maxden)
         if abs(fr.numerator) > 10**6:
             r = [0, 0, 0]
         else:
@@ -205,7 +205,7 @@ def mpas_dataset(case):
             "dcEdge": (("nEdges",), np.array(dc)),
         }
     )
-    info = {"edges": [list(e) for e in edges], "dv": dv, "dc": dc, "rings": rings, "cent": cent, "units": units}
+    info = {"edges": [list(e) for e in edges], "dv": dv, "dc": dc, "rings": rings, "cent": cent, "units": units, "cells_on_edge": cells_on_edge}
     return ds, info
 
 
@@ -229,6 +229,9 @@ def build(case):
         if via == "mpas_primal_sentinel":
             o["supplied"] = info
         return g, o
+    if via == "mpas_dual_partial":
+        g = ux.open_grid(ds, use_dual=True)
+        return g, {"mesh": None, "n_node": len(case["mesh"]), "units": info["cent"], "nodes": None, "centres": info["units"], "dp": info}
     if via == "mpas_dual_truthful":
         g = ux.open_grid(ds, use_dual=True)
         rings = info["rings"]
@@ -251,23 +254,36 @@ def record_case(case):
     raw = {}
     try:
         g, o = build(case)
-        rec["mesh"] = o["mesh"]
+        dp = o.get("dp")
         rec["n_node"] = o["n_node"]
         if o.get("nodes"):
             rec["nodes"] = o["nodes"]
+        if case.get("centre"):
+            rec["centre"] = case["centre"]
         raw["units"] = o["units"]
         raw["centres"] = o.get("centres")
         rows, _, _ = hux.table(g.edge_node_connectivity)
         rec["edges"] = rows
         efrows, _, _ = hux.table(g.edge_face_connectivity)
         rec["edge_faces"] = efrows
-        n_edge, n_face = len(rows), len(o["mesh"])
+        if dp is not None:
+            # dual of a partial mesh: not a mesh in the sense of Mesh.tla; judged against the source's own pairs
+            rec["kind"] = "dualpartial"
+            n_face = case["n_node"]
+            rec["n_face"] = n_face
+            rec["src_en"] = [[cs[0], cs[1] if len(cs) > 1 else -1] for cs in dp["cells_on_edge"]]
+            rec["src_ef"] = [list(e) for e in dp["edges"]]
+            rec["mesh"] = []
+            xr_, yr_ = case["yrows"], case["xrows"]
+        else:
+            rec["mesh"] = o["mesh"]
+            n_face = len(o["mesh"])
+            xr_, yr_ = case["xrows"], case["yrows"]
+            if case["via"] == "mpas_dual_truthful":
+                xr_, yr_ = yr_, xr_
+        n_edge = len(rows)
         if g.n_node != o["n_node"] or g.n_face != n_face:
             raise Machinery("grid sizes differ from the oracle mesh in %s" % case["id"])
-        # data rows; the dual route swaps the roles of nodes and faces
-        xr_, yr_ = case["xrows"], case["yrows"]
-        if case["via"] == "mpas_dual_truthful":
-            xr_, yr_ = yr_, xr_
         if any(len(r) != o["n_node"] for r in xr_) or any(len(r) != n_face for r in yr_):
             raise Machinery("data rows do not fit the grid in %s" % case["id"])
         rec["xrows"], rec["yrows"] = xr_, yr_
@@ -316,12 +332,15 @@ def record_case(case):
 
     xda = ux.UxDataArray(arr(rec["xrows"], o["n_node"]), dims=rec["lead_dims"] + ["n_node"], uxgrid=g, name="v")
     yda = ux.UxDataArray(arr(rec["yrows"], n_face), dims=rec["lead_dims"] + ["n_face"], uxgrid=g, name="v")
-    for key, da, fn in (
+    todo = [
         ("ndiff", xda, lambda a: a.difference(destination="edge")),
         ("fdiff", yda, lambda a: a.difference(destination="edge")),
         ("grad", yda, lambda a: a.gradient()),
         ("gradn", yda, lambda a: a.gradient(normalize=True)),
-    ):
+    ]
+    if rec.get("kind") == "dualpartial":
+        todo = [t for t in todo if t[0] in ("fdiff", "grad")]  # one-ended edges: node differences are not defined
+    for key, da, fn in todo:
         try:
             meta, flat, singles = call(da, fn)
             rec[key] = meta
@@ -355,18 +374,38 @@ def numeric_stage(item, pairs, geos, case):
     mesh = rec["mesh"]
     cent = raw.get("centres") or [centroid_unit([units[n] for n in f]) for f in mesh]
     # reference distances
-    if geos is not None:
+    dp = rec.get("kind") == "dualpartial"
+    if geos is not None and case.get("centre"):
+        # fine mesh: closed-form parts emitted by TLC over the base vectors, M substituted here (unbounded integers)
+        M = case["M"]
+        d_nn = []
+        for al, be, cc, ab, w1, w2 in geos:
+            w = [(M - 1) * w1[i] + cc * w2[i] for i in range(3)]
+            num = cc * cc * (w[0] * w[0] + w[1] * w[1] + w[2] * w[2])
+            dot = cc * ((M * M - 1) * al * be + cc * ab)
+            d_nn.append(math.atan2(math.sqrt(num), dot))
+    elif geos is not None:
         d_nn = [lattice.geodesic(gd) for gd in geos]
     else:
-        d_nn = [lattice.ang_between(units[a], units[b]) for a, b in E]
+        d_nn = [lattice.ang_between(units[a], units[b]) if (a >= 0 and b >= 0) else float("nan") for a, b in E]
     d_ff = [lattice.ang_between(cent[p[0]], cent[p[1]]) if len(p) == 2 else 0.0 for p in pairs]
+    if not raw.get("centres"):
+        # centres derived by the library pass through its pole snap (|z| > 1 - 1e-8 -> the pole): C04's tolerance.
+        # Faces inside that cap (with a margin for the threshold itself) are marked, TLC leaves their edges out.
+        snapz = [abs(c_[2]) > 1.0 - 2e-8 for c_ in cent]
+        rec["snap"] = [any(snapz[f] for f in p) for p in pairs]
     nd, fd = raw.get("edge_node_distances"), raw.get("edge_face_distances")
     if nd is not None:
         if rec["via"] == "mpas_primal_sentinel":
             rec["nd"] = [proj(x) for x in nd]
         else:
             rec["nd_ok"] = [close(x, y, TOL_DIST) for x, y in zip(nd, d_nn)] if len(nd) == len(E) else [False] * len(E)
-            if fd is not None and len(nd) == len(E) == len(fd) and all(len(p) == 2 for p in pairs):
+            if len(nd) == len(E):
+                errs = [(abs(x - y), abs(x - y) / y, y) for x, y in zip(nd, d_nn) if y == y and y > 0 and x == x]
+                if errs:
+                    item["stat"] = {"scale": max(e[2] for e in errs), "abs": max(e[0] for e in errs), "rel": max(e[1] for e in errs),
+                                    "nan": sum(1 for x in nd if x != x)}
+            if not dp and fd is not None and len(nd) == len(E) == len(fd) and all(len(p) == 2 for p in pairs):
                 rec["nd_sw"] = [close(x, y, TOL_DIST) for x, y in zip(nd, d_ff)]
                 rec["fd_sw"] = [close(x, y, TOL_DIST) for x, y in zip(fd, d_nn)]
     else:
@@ -378,6 +417,8 @@ def numeric_stage(item, pairs, geos, case):
             same_len = len(fd) == len(E)
             rec["fd_ok"] = [close(x, y, TOL_DIST) for x, y in zip(fd, d_ff)] if same_len else [False] * len(E)
             rec["fd_zero"] = [x == 0.0 for x in fd] if same_len else [False] * len(E)
+            if dp:
+                rec.pop("fd_zero")
     else:
         rec["fd_ok"] = [False] * len(E)
         rec["fd_zero"] = [False] * len(E)
@@ -397,7 +438,12 @@ def numeric_stage(item, pairs, geos, case):
         flat, singles = raw["grad"]
         ok_len = flat.shape[-1] == len(E)
         rec["grad"]["v"] = [
-            [proj(x * d_ref[k], TOL_REL) if (ok_len and len(pairs[k]) == 2) else proj(x) for k, x in enumerate(row.tolist())] for row in flat
+            [
+                # tolerance on gradient * reference distance: 1e-8 relative, widened to what 1e-9 rad on the distance allows
+                proj(x * d_ref[k], max(TOL_REL, 2.0 * TOL_DIST / d_ref[k]), maxden=2) if (ok_len and len(pairs[k]) == 2 and d_ref[k] > 0) else proj(x)
+                for k, x in enumerate(row.tolist())
+            ]
+            for row in flat
         ]
         rec["grad"]["indep"] = all(rows_equal(flat[j].tolist(), singles[j].tolist(), 1e-12) for j in range(len(singles)))
     if "gradn" in raw:
@@ -452,9 +498,14 @@ def process(ctx, cases, items):
     slim = []
     for it in items:
         r = it["rec"]
+        if r.get("kind") == "dualpartial":
+            slim.append({"id": r["id"], "kind": r["kind"], "src_ef": r["src_ef"]})
+            continue
         s = {"id": r["id"], "mesh": r["mesh"], "n_node": r["n_node"], "edges": r["edges"]}
         if "nodes" in r:
             s["nodes"] = r["nodes"]
+        if "centre" in r:
+            s["centre"] = r["centre"]
         slim.append(s)
     res = tlc_pass(ctx, slim, "emit")
     pairs, geos, bad = {}, {}, set()
@@ -463,6 +514,8 @@ def process(ctx, cases, items):
             pairs[v[1]] = [list(p) for p in v[2]]
         elif isinstance(v, tuple) and v and v[0] == "G":
             geos[v[1]] = [list(p) for p in v[2]]
+        elif isinstance(v, tuple) and v and v[0] == "H":
+            geos[v[1]] = [[p[0], p[1], p[2], p[3], list(p[4]), list(p[5])] for p in v[2]]
         elif isinstance(v, tuple) and v and v[0] == "X":
             bad.add(v[1])
     full = []
@@ -546,8 +599,10 @@ def mpas_cases(rng, thorough):
     names = ["cube", "cuboctahedron", "truncated_octahedron_split", "octahedron"] + (["rhombicuboctahedron", "tetrakis_cube"] if thorough else [])
     rots = [0, rng.randrange(1, 25)] if thorough else [rng.randrange(0, 25)]
     for e in catalog.entries(name=names, rot=rots, cut=[0, 3]):
-        for via in ("mpas_primal_sentinel", "mpas_primal_truthful", "mpas_dual_truthful"):
+        for via in ("mpas_primal_sentinel", "mpas_primal_truthful", "mpas_dual_truthful", "mpas_dual_partial"):
             if via == "mpas_dual_truthful" and not e["closed"]:
+                continue
+            if via == "mpas_dual_partial" and e["closed"]:
                 continue
             c = cat_case(e, "%s:%s" % (via, catalog.eid(e)), k, rng, via=via, shuffle=False)
             if via != "mpas_primal_truthful":
@@ -558,15 +613,69 @@ def mpas_cases(rng, thorough):
 
 
 def planar_cases(rng, n, size):
+    """Random planar mixed patches; the patch is centred on the prime meridian, on the antimeridian (faces and their
+    centres on both sides of +-180) or elsewhere, and raised towards a pole for some."""
     out = []
     k = rng.randrange(12)
     for i in range(n):
         nx, ny = rng.randint(3, size), rng.randint(3, size)
         lon, lat, faces = meshgen.planar_mixed(nx, ny, rng, holes=rng.choice([0.0, 0.1, 0.3]))
+        lon0 = [0.0, 180.0, 180.0, 95.0][i % 4]
+        lat0 = [0.0, 0.0, 55.0, -40.0][i % 4]
+        lon = [((x + lon0 + 180.0) % 360.0) - 180.0 for x in lon]
+        lat = [y * (0.5 if lat0 else 1.0) + lat0 for y in lat]
         nn, nf = len(lon), len(faces)
         xrows4 = [list(range(nn))] + [[rng.randint(-4, 4) for _ in range(nn)] for _ in range(3)]
         yrows4 = [list(range(nf))] + [[rng.randint(-4, 4) for _ in range(nf)] for _ in range(3)]
-        out.append(shape_case("planar:%d:%dx%d" % (i, nx, ny), k, faces, nn, xrows4, yrows4, lon=lon, lat=lat))
+        out.append(shape_case("planar:%d:%dx%d:lon%g" % (i, nx, ny, lon0), k, faces, nn, xrows4, yrows4, lon=lon, lat=lat))
+        k += 1
+    return out
+
+
+def _dot(a, b):
+    return a[0] * b[0] + a[1] * b[1] + a[2] * b[2]
+
+
+def fine_cases(rng, n, Ms):
+    """Fine meshes: the faces of a closed catalogue mesh inside a 60-degree cap about an integer direction, shrunk
+    about it by 1/M with the exact map v -> (M-1)(v.c) c + (c.c) v (EdgeOps.ShrinkPt; edges of ~1/M rad).  The record
+    carries the BASE vectors; the reference node distance is the closed form model-checked in EdgeShrink.tla."""
+    pool = catalog.entries(name=["cube", "octahedron", "cuboctahedron", "tetrakis_cube", "rhombic_dodecahedron", "truncated_octahedron_split"], cut=0)
+    out, tries = [], 0
+    k = rng.randrange(12)
+    while len(out) < n and tries < 50 * n:
+        tries += 1
+        e = rng.choice(pool)
+        nodes = e["nodes"]
+        kind = ("node", "near", "face")[tries % 3]
+        if kind == "face":
+            f = rng.choice(e["faces"])
+            centre = [sum(nodes[j][i] for j in f) for i in range(3)]
+        else:
+            v = rng.choice(nodes)
+            w = rng.choice([(1, 2, 3), (0, 1, 0), (-2, 1, 1), (3, -1, 2)]) if kind == "near" else (0, 0, 0)
+            centre = [(7 if kind == "near" else 1) * v[i] + w[i] for i in range(3)]
+        cc = _dot(centre, centre)
+        inside = lambda v: _dot(v, centre) > 0 and 4 * _dot(v, centre) ** 2 > cc * _dot(v, v)
+        faces = [list(f) for f in e["faces"] if all(inside(nodes[j]) for j in f)]
+        if len(faces) < 2:
+            continue
+        used = sorted({j for f in faces for j in f})
+        new = {old: i for i, old in enumerate(used)}
+        faces = [[new[j] for j in f] for f in faces]
+        base = [list(nodes[j]) for j in used]
+        M = Ms[len(out) % len(Ms)]
+        pts = [[(M - 1) * _dot(v, centre) * centre[i] + cc * v[i] for i in range(3)] for v in base]
+        lonlat = [lattice.lonlat_deg(p_) for p_ in pts]
+        nn, nf = len(base), len(faces)
+        xrows4 = [list(range(nn))] + [[rng.randint(-4, 4) for _ in range(nn)] for _ in range(3)]
+        yrows4 = [list(range(nf))] + [[rng.randint(-4, 4) for _ in range(nf)] for _ in range(3)]
+        cid = "fine:%s:%s%s:M=%d" % (catalog.eid(e), kind, "".join("%+d" % x for x in centre), M)
+        if cid in {c["id"] for c in out}:
+            continue
+        out.append(
+            shape_case(cid, k, faces, nn, xrows4, yrows4, lon=[q[0] for q in lonlat], lat=[q[1] for q in lonlat], nodes=base, centre=centre, M=M)
+        )
         k += 1
     return out
 
@@ -590,6 +699,12 @@ def run(ctx):
     rng = random.Random(ctx.seed)
     thorough = ctx.tier == "thorough"
     cases = []
+    # the closed form used as reference for fine meshes is the geodesic descriptor of the shrunk pair
+    ctx.tlc_ok(
+        "EdgeShrink",
+        "INIT Init\nNEXT Next\nCONSTANTS\n KA = %d\n KC = %d\nINVARIANT Geo\nINVARIANT Keeps\nCHECK_DEADLOCK FALSE\n" % ((2, 1) if thorough else (1, 2)),
+        what="closed form of GeoDescr under the exact shrink map, M = 1..3, all lattice a, b, c",
+    )
 
     def add(tag, states, n_node, pick=None):
         idx = range(len(states)) if pick is None or pick >= len(states) else sorted(rng.sample(range(len(states)), pick))
@@ -610,6 +725,7 @@ def run(ctx):
     cases += catalogue_cases(rng, thorough)
     cases += planar_cases(rng, 30 if thorough else 8, 12 if thorough else 7)
     cases += mpas_cases(rng, thorough)
+    cases += fine_cases(rng, 48 if thorough else 16, [10**3, 10**4, 10**5, 10**6])
     attach_source_tables(cases)
 
     items = pmap(record_case, cases)
@@ -624,15 +740,40 @@ def run(ctx):
     failed.update(f)
     fulls += full
 
+    # accuracy of tiny node distances against the exact closed form (reported, judged at 1e-9 rad absolute)
+    acc = {}
+    for c, it in zip(cases, items):
+        st = it.get("stat")
+        if st and c.get("M"):
+            a = acc.setdefault("1e-%d rad" % round(math.log10(c["M"])), {"grids": 0, "max_abs_err": 0.0, "max_rel_err": 0.0, "nan": 0})
+            a["grids"] += 1
+            a["max_abs_err"] = max(a["max_abs_err"], st["abs"])
+            a["max_rel_err"] = max(a["max_rel_err"], st["rel"])
+            a["nan"] += st["nan"]
+    ctx.note("edge_node_distance_accuracy_by_edge_length", {k: {kk: (float("%.3g" % vv) if isinstance(vv, float) else vv) for kk, vv in v.items()} for k, v in acc.items()})
+    anti = prime = 0
+    for c, r in zip(cases, fulls):
+        if r.get("kind") == "dualpartial" or "lon" not in c or c["via"] != "topology":
+            continue
+        units = [unit_of_lonlat(lo, la) for lo, la in zip(c["lon"], c["lat"])]
+        cen = [centroid_unit([units[n] for n in f]) for f in r["mesh"]]
+        for row in r.get("edge_faces", []):
+            if -1 not in row and len(row) == 2:
+                a, b = cen[row[0]], cen[row[1]]
+                if a[1] * b[1] < 0:
+                    anti += a[0] < 0 and b[0] < 0
+                    prime += a[0] > 0 and b[0] > 0
+    ctx.note("interior_edges_with_centres_across_antimeridian", anti)
+    ctx.note("interior_edges_with_centres_across_prime_meridian", prime)
     boundary = interior = more_faces = more_nodes = 0
     for c, r in zip(cases, fulls):
-        nf, nn = len(r["mesh"]), r["n_node"]
+        nf, nn = (r["n_face"] if r.get("kind") == "dualpartial" else len(r["mesh"])), r["n_node"]
         more_faces += nf > nn
         more_nodes += nf < nn
         pads = sum(1 for row in r.get("edge_faces", []) if -1 in row)
         boundary += pads > 0
         interior += pads < len(r.get("edge_faces", []))
-        ctx.count(6, (tuple(map(tuple, r["mesh"])), tuple(map(tuple, c["yrows"])), c["dtype"], c["den"], c["via"]) if nf >= 2 else None)
+        ctx.count(6, (tuple(map(tuple, r["mesh"])), tuple(map(tuple, c["yrows"])), c["dtype"], c["den"], c["via"], c.get("M"), c["id"] if r.get("kind") else None) if nf >= 2 else None)
     ctx.note("grids_with_boundary_edges", boundary)
     ctx.note("grids_with_interior_edges", interior)
     ctx.note("grids_n_face_gt_n_node", more_faces)
@@ -666,6 +807,9 @@ def run(ctx):
         "float reference for centre-to-centre distances: normalised mean of the corner unit vectors (harness, math only), atan2 form of the angle; node-node distances from SphereZ.GeoDescr on lattice meshes; tolerance 1e-9 rad",
         "gradient judged as gradient * reference distance = exact difference to 1e-8 relative (no tolerance in the property text)",
         "edges whose two faces have identical corner sets (coincident centres) and all-constant rows under normalisation (0/0) are outside the property and not judged",
+        "faces whose reference centre lies inside the library's pole-snap cap (|z| > 1 - 1e-8, i.e. within 1.4e-4 rad of a pole; C04's tolerance) have their centre reported AT the pole: their edges are left out of the centre-distance and gradient clauses",
+        "fine meshes (edges 1e-3 .. 1e-6 rad): node distances judged at 1e-9 rad absolute against the exact closed form; the relative error of the spherical law of cosines is reported in the evidence, not judged; gradient tolerance widened to what 1e-9 rad on the distance allows",
+        "MPAS dual of a partial mesh is not a mesh (open fans, one-ended edges): judged against the source's own cellsOnEdge / verticesOnEdge pairs, node differences not judged",
         "the edge is identified by the grid's own edge_node_connectivity row (that the table is an edge table of the mesh is re-checked here)",
     ]
 
